@@ -83,15 +83,16 @@ class State:
 
 class Ob:
     """One proof obligation instance (one path)."""
-    __slots__ = ('name', 'assumptions', 'goal', 'fn', 'kind', 'info')
+    __slots__ = ('name', 'assumptions', 'goal', 'fn', 'kind', 'info', 'splits')
 
-    def __init__(self, name, assumptions, goal, fn, kind, info=None):
+    def __init__(self, name, assumptions, goal, fn, kind, info=None, splits=None):
         self.name = name
         self.assumptions = assumptions
         self.goal = goal
         self.fn = fn
         self.kind = kind
         self.info = info or {}
+        self.splits = splits or []      # [(term, lo, hi)]: discharge by exhaustive case split on small-range terms
 
 
 class Cx:
@@ -175,8 +176,15 @@ class Executor:
         self._spec_rec = {}
         self.notes = []          # assumptions worth reporting (float sites etc.)
         self.assumed_used = set()
+        self.lemmas_applied = set()
+        self.fresh_refs = {}
+        self.block_map = {}
+        self.verifying_block = None
+        self._newest_cache = {}
         self.inlined = set()
         self.cur_fn = None
+        self.cur_contract = None
+        self.cur_fi = None
         self._prune_solver = None
         self.stats = dict(paths=0, pruned=0)
         from .builtins import Builtins
@@ -209,7 +217,42 @@ class Executor:
     def oblige(self, st, name, goal, kind='assert', info=None):
         if z3.is_true(goal):
             goal = z3.BoolVal(True)
-        self.obs.append(Ob(name, st.pc + st.guards, goal, self.cur_fn, kind, info))
+        self.obs.append(Ob(name, st.pc + st.guards, goal, self.cur_fn, kind, info, self.split_terms(st, name)))
+
+    def split_terms(self, st, name):
+        """Terms (evaluated in the obligation's own state) on which the discharge may case-split."""
+        c = self.cur_contract
+        if c is None or not c.split:
+            return []
+        out = []
+        scx = Cx(self.cur_fi, spec=True, contract=c)
+        for o_, sp_ in (c.loops or {}).items():
+            if f'$i{o_}' in st.vars and sp_.get('idx'):
+                st = st.setvar(sp_['idx'], st.vars[f'$i{o_}'])
+        for pat, exprs in c.split:
+            if pat and pat not in name:
+                continue
+            for src, (lo, hi) in exprs.items():
+                try:
+                    v = self.pure(st, ast.parse(src, mode='eval').body, scx)
+                except Exception:
+                    continue
+                z = v.z
+                if z is None or z.sort() != z3.IntSort():
+                    continue
+                z = z3.simplify(z)
+                if z3.is_int_value(z):
+                    continue
+                # c + k  ->  split on the constant c with the shifted range
+                if z3.is_app_of(z, z3.Z3_OP_ADD) and z.num_args() == 2:
+                    a_, b_ = z.arg(0), z.arg(1)
+                    if z3.is_int_value(a_) and z3.is_const(b_) and b_.decl().kind() == z3.Z3_OP_UNINTERPRETED:
+                        z, lo, hi = b_, lo - a_.as_long(), hi - a_.as_long()
+                    elif z3.is_int_value(b_) and z3.is_const(a_) and a_.decl().kind() == z3.Z3_OP_UNINTERPRETED:
+                        z, lo, hi = a_, lo - b_.as_long(), hi - b_.as_long()
+                if not any(z.eq(t) for t, _, _ in out):
+                    out.append((z, lo, hi))
+        return out
 
     def site(self, cx, node, kind):
         """Stable ordinal of an AST node among the nodes of its function (source order)."""
@@ -252,6 +295,21 @@ class Executor:
             self.stats['pruned'] += 1
             return False
         return True
+
+    def proves(self, st, cond, timeout=200):
+        """True only if the (quantifier-free part of the) path condition entails cond (quick check)."""
+        c = z3.simplify(cond)
+        if z3.is_true(c):
+            return True
+        if z3.is_false(c):
+            return False
+        s = z3.Solver()
+        s.set('timeout', timeout)
+        for p in st.pc + st.guards:
+            if not z3.is_quantifier(p):
+                s.add(p)
+        s.add(z3.Not(c))
+        return s.check() == z3.unsat
 
     # ------------------------------------------------------------------ types
     def ann_type(self, ann):
@@ -379,7 +437,7 @@ class Executor:
         ft = self.field_type(cname, fname)
         key = self.fkey(fname, ft)
         arr = self.heap_get(st, key, z3.ArraySort(z3.IntSort(), T.sort_of(ft)))
-        return SV(ft, z3.Select(arr, obj.z))
+        return SV(ft, self.select(arr, obj.z))
 
     def write_field(self, st, obj, fname, val, cname=None):
         cname = cname or obj.ty.args[0]
@@ -387,22 +445,129 @@ class Executor:
         v = self.coerce(val, ft, f'store to {cname}.{fname}')
         key = self.fkey(fname, ft)
         arr = self.heap_get(st, key, z3.ArraySort(z3.IntSort(), T.sort_of(ft)))
-        return st.setheap(key, z3.Store(arr, obj.z, v.z))
+        return st.setheap(key, self.store(arr, obj.z, v.z))
 
-    def lkey(self, ety):
-        return f'list:{T.sort_name(T.sort_of(ety))}'
+    def select(self, arr, idx):
+        """Select with syntactic read-over-write (same index term, or distinct constants) to keep formulas small."""
+        a = arr
+        while z3.is_app_of(a, z3.Z3_OP_STORE):
+            k = a.arg(1)
+            if k.eq(idx):
+                return a.arg(2)
+            if z3.is_int_value(k) and z3.is_int_value(idx):
+                a = a.arg(0)
+                continue
+            if self.distinct_refs(k, idx):
+                a = a.arg(0)
+                continue
+            break
+        return z3.Select(a, idx)
 
-    def list_content(self, st, lsv):
+    def distinct_refs(self, a, b):
+        """Syntactic distinctness of two references: one of them is a reference freshly allocated by this
+        execution, and the other is a term built only from symbols that existed before that allocation (it then
+        denotes an object that already existed), or another allocation."""
+        for x, y in ((a, b), (b, a)):
+            nx = self.fresh_refs.get(x.get_id())
+            if nx is None:
+                continue
+            ny = self.fresh_refs.get(y.get_id())
+            if ny is not None:
+                return ny != nx
+            if self.newest_symbol(y) < nx:
+                return True
+        return False
+
+    def newest_symbol(self, t):
+        i = t.get_id()
+        c = self._newest_cache.get(i)
+        if c is not None:
+            return c
+        best = 0
+        if z3.is_const(t) and t.decl().kind() == z3.Z3_OP_UNINTERPRETED:
+            nm = t.decl().name()
+            if '!' in nm:
+                try:
+                    best = int(nm.rsplit('!', 1)[1].lstrip('q') or 0)
+                except ValueError:
+                    best = 10 ** 9
+        elif z3.is_app(t):
+            for ch in t.children():
+                best = max(best, self.newest_symbol(ch))
+        elif z3.is_quantifier(t):
+            best = 10 ** 9
+        self._newest_cache[i] = best
+        return best
+
+    def store(self, arr, idx, val):
+        if z3.is_app_of(arr, z3.Z3_OP_STORE) and arr.arg(1).eq(idx):
+            arr = arr.arg(0)
+        if val.sort() == z3.IntSort() and not z3.is_int_value(val):
+            v2 = z3.simplify(val)
+            if z3.is_int_value(v2):
+                val = v2
+        return z3.Store(arr, idx, val)
+
+    # lists are heap objects whose content is a pair (length, Array Int -> E): two heap components
+    def lkey(self, ety, lty=None):
+        return f'larr:{T.sort_name(T.sort_of(ety))}'
+
+    def lkey_of(self, lty):
+        # bytes / bytearray / list[int] are distinct Python types, hence disjoint sets of objects:
+        # one heap component per static list type
+        mark = lty.args[1] if len(lty.args) > 1 else ''
+        return f'larr:{T.sort_name(T.sort_of(lty.args[0]))}' + (':' + mark if mark else '')
+
+    def lsort(self, ety):
+        return z3.ArraySort(z3.IntSort(), z3.ArraySort(z3.IntSort(), T.sort_of(ety)))
+
+    def lenkey_of(self, lty):
+        return 'llen' + self.lkey_of(lty)[4:]
+
+    def list_len(self, st, lsv):
+        return self.select(self.heap_get(st, self.lenkey_of(lsv.ty), z3.ArraySort(z3.IntSort(), z3.IntSort())), lsv.z)
+
+    def list_arr(self, st, lsv):
         ety = lsv.ty.args[0]
-        key = self.lkey(ety)
-        arr = self.heap_get(st, key, z3.ArraySort(z3.IntSort(), z3.SeqSort(T.sort_of(ety))))
-        return z3.Select(arr, lsv.z)
+        return self.select(self.heap_get(st, self.lkey_of(lsv.ty), self.lsort(ety)), lsv.z)
 
-    def set_list_content(self, st, lsv, seqz):
+    def list_at(self, st, lsv, i):
+        a = self.list_arr(st, lsv)
+        return self.select(a, i) if not z3.is_quantifier(a) else z3.Select(a, i)
+
+    def set_list(self, st, lsv, n, arr):
         ety = lsv.ty.args[0]
-        key = self.lkey(ety)
-        arr = self.heap_get(st, key, z3.ArraySort(z3.IntSort(), z3.SeqSort(T.sort_of(ety))))
-        return st.setheap(key, z3.Store(arr, lsv.z, seqz))
+        lk = self.lenkey_of(lsv.ty)
+        lh = self.heap_get(st, lk, z3.ArraySort(z3.IntSort(), z3.IntSort()))
+        st = st.setheap(lk, self.store(lh, lsv.z, n))
+        ah = self.heap_get(st, self.lkey_of(lsv.ty), self.lsort(ety))
+        return st.setheap(self.lkey_of(lsv.ty), self.store(ah, lsv.z, arr))
+
+    def new_list(self, st, lty, n, arr, hint='lst'):
+        s2, r = self.alloc(st, lty, hint)
+        return self.set_list(s2, r, n, arr), r
+
+    def seq_view(self, st, v):
+        """(length, element-at function) of a list (heap) or an immutable seq value"""
+        if v.ty.kind == 'list':
+            a = self.list_arr(st, v)
+            return self.list_len(st, v), (lambda i: self.select(a, i))
+        if v.ty.kind in ('seq',):
+            return z3.Length(v.z), (lambda i: v.z[i])
+        raise VCError(f'not a sequence: {v.ty!r}')
+
+    def empty_arr(self, ety):
+        return z3.K(z3.IntSort(), self.default_of(ety))
+
+    def default_of(self, ty):
+        srt = T.sort_of(ty)
+        if srt == z3.IntSort():
+            return I(0)
+        if srt == z3.BoolSort():
+            return z3.BoolVal(False)
+        if srt == z3.StringSort():
+            return z3.StringVal('')
+        return z3.Const('dflt_' + T.sort_name(srt), srt)
 
     def dkeys(self, dty):
         k, v = dty.args
@@ -429,6 +594,7 @@ class Executor:
     def alloc(self, st, ty, hint='obj'):
         """Fresh reference, distinct from every reference allocated so far."""
         r = self.fresh_z(z3.IntSort(), hint)
+        self.fresh_refs[r.get_id()] = self.counter
         al = self.heap_get(st, 'alloc', z3.ArraySort(z3.IntSort(), z3.BoolSort()))
         st = st.assume(r > 0, z3.Not(z3.Select(al, r)))
         st = st.setheap('alloc', z3.Store(al, r, z3.BoolVal(True)))
@@ -559,9 +725,11 @@ class Executor:
         if isinstance(v, str):
             return k(st, SV(STR, z3.StringVal(v)))
         if isinstance(v, bytes):
-            if len(v) == 0:
-                return k(st, SV(T.BYTES, z3.Empty(z3.SeqSort(z3.IntSort()))))
-            return k(st, SV(T.BYTES, z3.Concat(*[z3.Unit(I(b)) for b in v]) if len(v) > 1 else z3.Unit(I(v[0]))))
+            arr = self.empty_arr(INT)
+            for i_, b in enumerate(v):
+                arr = z3.Store(arr, I(i_), I(b))
+            s2, r = self.new_list(st, T.BYTES, I(len(v)), arr, 'bytes')
+            return k(s2, r)
         if isinstance(v, float):
             return k(st, SV(FLOAT, z3.RealVal(v)))
         raise VCError(f'constant {v!r} outside subset')
@@ -661,9 +829,9 @@ class Executor:
     def truth(self, st, v):
         t = v.ty
         if t.kind == 'list':
-            return z3.Length(self.list_content(st, v)) > 0
+            return self.list_len(st, v) > 0
         if t.kind == 'opt' and t.args[0].kind == 'list':
-            return z3.And(v.z != 0, z3.Length(self.list_content(st, SV(t.args[0], v.z))) > 0)
+            return z3.And(v.z != 0, self.list_len(st, SV(t.args[0], v.z)) > 0)
         if t.kind in ('dict', 'set'):
             raise VCError('truthiness of dict/set outside subset')
         return truthy(v)
@@ -783,7 +951,11 @@ class Executor:
         if ta.kind == 'float' or tb.kind == 'float':
             return self.coerce(a, FLOAT).z == self.coerce(b, FLOAT).z
         if ta.kind == 'list' and tb.kind == 'list':
-            return self.list_content(st, a) == self.list_content(st, b)
+            j = z3.Int('j!leq')
+            n = self.list_len(st, a)
+            aa, bb = self.list_arr(st, a), self.list_arr(st, b)
+            return z3.And(n == self.list_len(st, b),
+                          z3.ForAll([j], z3.Implies(z3.And(j >= 0, j < n), z3.Select(aa, j) == z3.Select(bb, j))))
         if ta.kind == 'ref' and tb.kind == 'ref':
             # reference identity unless the class defines __eq__ (then outside subset)
             for c in (ta.args[0], tb.args[0]):
@@ -856,7 +1028,9 @@ class Executor:
         if t.kind == 'map':
             raise VCError('`in` on a math map needs its domain (use a dict)')
         if t.kind == 'list':
-            return z3.Contains(self.list_content(st, coll), z3.Unit(self.coerce(x, t.args[0]).z))
+            j = z3.Int('j!in')
+            return z3.Exists([j], z3.And(j >= 0, j < self.list_len(st, coll),
+                                         z3.Select(self.list_arr(st, coll), j) == self.coerce(x, t.args[0]).z))
         if t.kind == 'seq':
             return z3.Contains(coll.z, z3.Unit(self.coerce(x, t.args[0]).z))
         if t.kind == 'str':
@@ -886,8 +1060,10 @@ class Executor:
             if ta.kind == 'seq' and tb.kind == 'seq':
                 return k(st, SV(ta, z3.Concat(a.z, b.z)))
             if ta.kind == 'list' and tb.kind == 'list':
-                s2, r = self.alloc(st, ta, 'lst')
-                s2 = self.set_list_content(s2, r, z3.Concat(self.list_content(st, a), self.list_content(st, b)))
+                n1, n2 = self.list_len(st, a), self.list_len(st, b)
+                a1, a2 = self.list_arr(st, a), self.list_arr(st, b)
+                j = z3.Int('j!cat')
+                s2, r = self.new_list(st, ta, n1 + n2, z3.Lambda([j], z3.If(j < n1, z3.Select(a1, j), z3.Select(a2, j - n1))))
                 return k(s2, r)
         if isinstance(op, ast.Mult) and (ta.kind == 'list' or tb.kind == 'list'):
             return self.bi.list_repeat(st, a, b, cx, node, k)
@@ -905,17 +1081,25 @@ class Executor:
         if isinstance(op, ast.Sub):
             return k(st, SV(INT, x - y))
         if isinstance(op, ast.Mult):
+            if self.bi.is_pow2_term(y):
+                return k(st, SV(INT, self.bi.pmul(x, y)))
+            if self.bi.is_pow2_term(x):
+                return k(st, SV(INT, self.bi.pmul(y, x)))
             return k(st, SV(INT, x * y))
         if isinstance(op, (ast.FloorDiv, ast.Mod)):
             def cont(s):
                 ys = z3.simplify(y)
-                if z3.is_int_value(ys) and ys.as_long() > 0:
+                if self.bi.is_pow2_term(y):
+                    q, r = self.bi.pdiv(x, y), self.bi.pmod(x, y)
+                elif (z3.is_int_value(ys) and ys.as_long() > 0) or self.known_positive(y):
                     q, r = x / y, x % y
                 else:
                     # floor semantics for either sign of the divisor
                     q = z3.If(y > 0, x / y, (-x) / (-y))
                     r = x - y * q
                 return k(s, SV(INT, q if isinstance(op, ast.FloorDiv) else r))
+            if self.known_positive(y):
+                return cont(st)
             return self.guard_raise(st, cx, y == 0, 'ZeroDivisionError', node, cont, why=ast.unparse(node))
         if isinstance(op, ast.Pow):
             xs = z3.simplify(x)
@@ -945,10 +1129,19 @@ class Executor:
         if isinstance(op, ast.BitAnd):
             return k(st, SV(INT, self.bi.band(x, y)))
         if isinstance(op, ast.BitOr):
-            return k(st, SV(INT, self.bi.bor(x, y)))
+            return k(st, SV(INT, self.bi.bor(x, y, st)))
         if isinstance(op, ast.BitXor):
             return k(st, SV(INT, self.bi.bxor(x, y)))
         raise VCError(f'operator {type(op).__name__} outside subset')
+
+    def known_positive(self, z):
+        if z3.is_int_value(z):
+            return z.as_long() > 0
+        if self.bi._pow2 is not None and z3.is_app(z) and z.decl().eq(self.bi._pow2):
+            return True
+        if z3.is_app_of(z, z3.Z3_OP_MUL):
+            return all(self.known_positive(z.arg(i)) for i in range(z.num_args()))
+        return False
 
     # subscripts ---------------------------------------------------------------
     def ev_Subscript(self, st, e, cx, k):
@@ -967,18 +1160,28 @@ class Executor:
             return self.guard_raise(st, cx, base.z == 0, 'TypeError', node,
                                     lambda s: self.index(s, inner, idx, cx, node, k), why='subscript of None')
         if t.kind in ('list', 'seq', 'str'):
-            content = self.list_content(st, base) if t.kind == 'list' else base.z
-            n = z3.Length(content)
+            if t.kind == 'list':
+                n = self.list_len(st, base)
+            else:
+                content = base.z
+                n = z3.Length(content)
             i = self.coerce(idx, INT).z
             pos = z3.If(i < 0, i + n, i)
             isimp = z3.simplify(i)
             if z3.is_int_value(isimp):
                 pos = i if isimp.as_long() >= 0 else i + n
+            elif cx.spec or self.proves(st, i >= 0):
+                pos = i     # spec sequences are indexed mathematically; otherwise i >= 0 holds on this path
             oob = z3.Or(pos < 0, pos >= n)
 
             def cont(s):
                 if t.kind == 'str':
                     return k(s, SV(STR, z3.SubString(content, pos, 1)))
+                if t.kind == 'list':
+                    el = SV(t.args[0], self.list_at(s, base, pos))
+                    if t in (T.BYTEARRAY, T.BYTES) and not cx.spec:
+                        s = s.assume(el.z >= 0, el.z <= 255)   # type invariant of bytes/bytearray (enforced at every store)
+                    return k(s, el)
                 return k(s, SV(t.args[0], content[pos]))
             return self.guard_raise(st, cx, oob, 'IndexError', node, cont, why=ast.unparse(node))
         if t.kind == 'dict':
@@ -991,6 +1194,8 @@ class Executor:
         if t.kind == 'map':
             key = self.coerce(idx, t.args[0])
             return k(st, SV(t.args[1], z3.Select(base.z, key.z)))
+        if t.kind == 'arr':
+            return k(st, SV(t.args[0], self.select(base.z, self.coerce(idx, INT).z)))
         if t.kind == 'tuple':
             isimp = z3.simplify(idx.z)
             if z3.is_int_value(isimp):
@@ -1008,12 +1213,15 @@ class Executor:
             for v in vs[1:]:
                 if v.ty != ety:
                     ety = self.join(ety, v.ty)
-            zs = [z3.Unit(self.coerce(v, ety).z) for v in vs]
-            content = z3.Concat(*zs) if len(zs) > 1 else zs[0]
             if cx.spec:
+                zs = [z3.Unit(self.coerce(v, ety).z) for v in vs]
+                content = z3.Concat(*zs) if len(zs) > 1 else zs[0]
                 return k(st, SV(T.seq(ety), content))
-            s2, r = self.alloc(st, T.lst(ety), 'lst')
-            return k(self.set_list_content(s2, r, content), r)
+            arr = self.empty_arr(ety)
+            for idx_, v in enumerate(vs):
+                arr = z3.Store(arr, I(idx_), self.coerce(v, ety).z)
+            s2, r = self.new_list(st, T.lst(ety), I(len(vs)), arr)
+            return k(s2, r)
         return self.ev_list(st, e.elts, cx, f)
 
     def ev_Tuple(self, st, e, cx, k):
